@@ -1173,7 +1173,85 @@ def corpus_cases():
                  ('+BB', {'atomname': 'BB', 'atype': 'P', 'order': o})], [('BB', '+BB')])
         l4.interactions['bonds'] = [Interaction(atoms=('BB', '+BB'), parameters=['1'], meta={})]
         out.append(('a', chain([1, 2, 3, 4]), [l4]))
+    # links written as force-field text and read by read_ff (prefixes, patterns, non-edges, !-sections,
+    # #meta, versions, effectors, replace, molmeta): how links really look
+    from vermouth.ffinput import read_ff
+    tff = ForceField(name='verif_c05_text')
+    read_ff(FF_TEXT.split('\n'), tff)
+    mol = chain([1, 2, 3, 5, 6], ('BB', 'SC1'))
+    for n, ss_ in zip(range(0, 10, 2), 'HHCCE'):
+        mol.nodes[n]['cgsecstruct'] = ss_
+    mol.meta = {'extdih': True}
+    add_initial_interactions(chk.rng('corpus-text'), mol)
+    out.append(('a', mol, list(tff.links)))
+    mol = chain([1, 2, 2, 3], ('BB', 'SC1', 'SC2'))
+    out.append(('a', mol, list(tff.links)))
     return out
+
+
+FF_TEXT = '''
+[ link ]
+resname "ALA|GLY"
+[ bonds ]
+BB +BB 1 0.350 1250 {"group": "Backbone bonds"}
+
+[ link ]
+[ angles ]
+#meta {"group": "First SBB"}
+SC1 BB +BB 2 100 25
+[ non-edges ]
+BB -BB
+
+[ link ]
+[ bonds ]
+BB >BB 1 dist(BB,>BB) 1250 {"version": 1}
+[ patterns ]
+BB {"cgsecstruct": "H|E"} >BB
+BB >BB {"cgsecstruct": "H"}
+
+[ link ]
+[ constraints ]
+BB +BB 1 0.33
+[ !bonds ]
+BB +BB
+[ patterns ]
+BB {"cgsecstruct": "H"} +BB {"cgsecstruct": "H"}
+
+[ link ]
+[ molmeta ]
+extdih true
+[ dihedrals ]
+-BB BB +BB ++BB 1 dihphase(-BB,BB,+BB,++BB|.2f) 10 1 {"comment": "x"}
+
+[ link ]
+[ atoms ]
+BB {"cgsecstruct": "C|E", "replace": {"atype": "Nda"}, "modifications": null}
+
+[ link ]
+[ angles ]
+BB *BB **BB 2 angle(BB,*BB,**BB) 20
+[ edges ]
+BB *BB
+*BB **BB
+'''
+
+
+def stored_corpus(lines, pending):
+    """corpus/c05_cases.json: the protocol lines of the hand-made cases with the canonical output of
+    the real code recorded when the file was written (VERIF_C05_WRITE_CORPUS=1 rewrites it).  On
+    every run the stored lines are checked to be what the corpus still generates."""
+    path = os.path.join(VERIF, 'corpus', 'c05_cases.json')
+    cur = [{'case': p[0], 'line': ln} for ln, p in zip(lines, pending)]
+    if os.environ.get('VERIF_C05_WRITE_CORPUS') == '1':
+        with open(path, 'w') as f:
+            json.dump(cur, f, indent=0)
+    try:
+        old = json.load(open(path))
+    except OSError:
+        old = None
+    if old != cur:
+        chk.notes.append('corpus/c05_cases.json differs from the cases generated by corpus_cases()')
+        chk.count('corpus_file_out_of_date')
 
 
 def link_stream():
@@ -1187,8 +1265,12 @@ def link_stream():
             for j, one in enumerate(l):
                 match_case('corpus-match-%d-%d' % (i, j), mol, one, lines, pending)
             apply_case('corpus-apply-%d' % i, mol, l, alines, apending)
+    finish_match_cases(lines, pending)
+    finish_apply_cases(alines, apending)
+    stored_corpus(lines + alines, pending + apending)
+    lines, pending, alines, apending = [], [], [], []
     rng = chk.rng('match')
-    n = 12000 if chk.thorough else 1500
+    n = 20000 if chk.thorough else 5000
     for i in range(n):
         mol = gen_molecule(rng, ff)
         link = gen_link(rng, mol)
@@ -1201,7 +1283,7 @@ def link_stream():
         match_case('match-%d' % i, mol, link, lines, pending)
     finish_match_cases(lines, pending)
     rng = chk.rng('apply')
-    n = 5000 if chk.thorough else 700
+    n = 8000 if chk.thorough else 2500
     for i in range(n):
         mol = gen_molecule(rng, ff)
         add_initial_interactions(rng, mol)
